@@ -164,7 +164,7 @@ def expr_as_matrix(expr: Callable, *inputs, res_like: "MultiVector" = None):
 
     A = sympy.zeros(len(y), len(x)) if not numerical else np.zeros((len(y), len(x)))
     for i, (blade_y, yi) in enumerate(y.items()):
-        cv = sympy.collect(yi.expand(), x.values())
+        cv = sympy.collect(sympy.sympify(yi).expand(), x.values())
         for j, (blade_x, xj) in enumerate(x.items()):
             A[i, j] = cv.coeff(xj)
     return A, y
